@@ -75,10 +75,12 @@ def expected(spec: dict, max_retries: int, retriable: tuple[str, ...] = ("retry"
             if attempt in fails and not node.get("fail_after_kids"):
                 exc = (node.get("exc", "retry"), name, attempt)
             else:
-                still = awaited
+                # the outcome of a node never depends on whether somebody awaits it (only the lazy
+                # execution counts do): an un-awaited group member that fails through a child still fails
+                still = True
                 n_failed = 0
                 for k in node.get("kids") or []:
-                    r = run_node(k, still)
+                    r = run_node(k, awaited and still)
                     if r[0] == "exc":
                         n_failed += 1
                     if not still:
